@@ -122,3 +122,14 @@ theorem prefixes_append (π τ : Scope) :
     rw [h1, h2]
 
 end Gin
+
+namespace Gin
+open AList
+
+theorem popAll_sublist (d : AList String Val) (names : List String) : (popAll d names).Sublist d := by
+  unfold popAll
+  induction names generalizing d with
+  | nil => simp
+  | cons n names ih => exact (ih _).trans (erase_sublist n d)
+
+end Gin
